@@ -387,24 +387,38 @@ Proof. exact SimCorollaryFacts.sim_run_log_tick. Qed.
 Print Assumptions C04_sim_run_ticks.
 
 (* [exact] every OOM failure reported in any tick of any run is justified. The failed result [r] comes from
-   the tick of one pool [p] (position [i]; [p'] afterwards); with the vocabulary of C04_kill_justified
-   ([act4]: the pool's containers as they enter the killer, [act1] / [cons1]: after the own-limit kills,
-   [vs]: the victims of the pool-level loop in kill order): the usage figures are the exact sums, the
-   pool-level loop ran only if the usage exceeded the pool AND RAM overcommit is on, and the failed container
-   [c] was above its own allocation, or (overcommit) was killed while the usage that remained after the
-   earlier victims still exceeded the pool *)
+   the tick of one pool [p] (position [i]; [p'] afterwards), run with the pool's share [ss], [asgs] of the
+   commands of this simulator tick and a container-id counter [next] not below the counter of the state.
+   The containers the justification speaks about ARE the containers of the pool (the link, audit C P2):
+     [act2] = the running containers of [p] that no command of [ss] names, in order, followed by the containers
+              the assignments [asgs] create ([new_containers next asgs]: [new_container] with ids next, next+1, ..);
+     [act4] = [map (cstep C) act2]: each of them after its [ctick] of this tick ([cstep], Proofs/SimTimelineFacts.v,
+              C05 Part 4) - the containers as they enter the killer; the running ones among [act5] (as they leave
+              it) are the running list of [p'], the finished ones are the results of the pool.
+   With the vocabulary of C04_kill_justified ([act1] / [cons1]: after the own-limit kills, [vs]: the victims of the
+   pool-level loop in kill order): the usage figures are the exact sums, the pool-level loop ran only if the usage
+   exceeded the pool AND RAM overcommit is on, and the failed container [c] was above its own allocation, or
+   (overcommit) was killed while the usage that remained after the earlier victims still exceeded the pool *)
+From Eudoxia Require Import Proofs.LedgerFacts Proofs.SimTimelineFacts Proofs.AuditRepairFacts.
+
 Theorem C04_sim_kill_justified : forall C a np cpu ram,
   (forall x, (cf_rnd C x == x)%Q) -> script_nonneg C -> (0 <= ram)%Q ->
   forall t s newp s' lg,
   sim_reach C a 0%Z (init_sim C np cpu ram) t s ->
   sim_tick C a t s newp = Ok (s', lg) ->
   forall r, In r (tl_results lg) -> r_err r = true ->
-  exists i p p' w next ss asgs w' next' res,
+  exists i p p' w next w' next' res,
+    let ss := filter (fun x => (su_pool x =? Z.of_nat (p_id p))%Z) (tl_susp lg) in
+    let asgs := filter (fun x => (a_pool x =? Z.of_nat (p_id p))%Z) (tl_asgs lg) in
     nth_error (e_pools (sm_exec s)) i = Some p /\ nth_error (e_pools (sm_exec s')) i = Some p' /\
+    (e_next (sm_exec s) <= next)%nat /\
     pool_tick C w next p ss asgs = Ok (w', next', p', res) /\ In r res /\
     exists act2 w3 cons3 w4 cons4 act4 w1 cons1 act1 cons5 act5 vs,
+      act2 = filter (fun c => negb (memb (c_id c) (map su_cid ss))) (p_active p) ++ new_containers next asgs /\
+      act4 = map (cstep C) act2 /\
       tick_active C w3 cons3 act2 = Ok (w4, cons4, act4) /\
       oom_killer C (p_max_ram p) w4 cons4 act4 = Ok (w', cons5, act5) /\
+      p_active p' = filter (fun c => negb (c_completed c)) act5 /\
       res = map (result_of (p_id p)) (filter c_completed act5) /\
       kill_over_limit C w4 cons4 act4 = Ok (w1, cons1, act1) /\
       act1 = map (kill_when over_limit) act4 /\
@@ -418,20 +432,132 @@ Theorem C04_sim_kill_justified : forall C a np cpu ram,
          cf_overcommit C = true /\
          exists j, nth_error vs j = Some c /\
                    (p_max_ram p < cons1 - sumQ (map c_mem (firstn j vs)))%Q).
-Proof. exact SimCorollaryFacts.C04_sim_kill_justified. Qed.
+Proof. exact AuditRepairFacts.sim_kill_justified_linked. Qed.
 Print Assumptions C04_sim_kill_justified.
 
-(* ... in short, without RAM overcommit every failure of every run is a container above its own allocation *)
-Theorem C04_sim_kill_own_limit_without_overcommit : forall C a np cpu ram,
+(* the link is what ties the memory figures to the run. Tick 0 of the witness run below ([C04_sim_witness]: two
+   containers created in the tick, 6 GB of their 10 GB each, container 0 taken by the pool-level loop): audit C
+   satisfied the body WITHOUT the link by a fabricated container 0 that "uses" 11 GB, with the own-limit disjunct
+   (AuditExamplesC.C04.kill_justified_body_accepts_fabricated_containers). Four conjuncts of the body above force
+   the real figures on every candidate [c]: 6 GB of 10 GB, so the own-limit disjunct is false of it *)
+Example C04_sim_kill_justified_link_forces_real_memory :
+  forall i p next act2 act4 c,
+    nth_error (e_pools (sm_exec SimCorExamples.k0)) i = Some p ->
+    act2 = filter (fun c => negb (memb (c_id c) (map su_cid
+                     (filter (fun x => (su_pool x =? Z.of_nat (p_id p))%Z) (tl_susp SimCorExamples.klg0)))))
+                  (p_active p)
+           ++ new_containers next
+                (filter (fun x => (a_pool x =? Z.of_nat (p_id p))%Z) (tl_asgs SimCorExamples.klg0)) ->
+    act4 = map (cstep SimCorExamples.Ck) act2 -> In c act4 ->
+    (c_mem c == 6)%Q /\ (c_ram c == 10)%Q /\ ~ (c_ram c < c_mem c)%Q.
+Proof. exact AuditRepairFacts.LinkExamples.link_forces_real_memory. Qed.
+
+(* [exact] "without overcommit a container that stays within its allocation is never killed" (audit C P1; this
+   replaces a statement whose existential container was tied to nothing). A running container [c] of pool [i] that
+   no suspension command of the tick names, and whose state after this tick's [ctick] ([cstep C c]) is unfinished
+   and within its allocation: it is in the running list of pool [i] after the tick, in that state, and no result
+   of the tick carries its id *)
+Theorem C04_sim_no_overcommit_within_alloc_never_killed : forall C a np cpu ram,
+  (forall x, (cf_rnd C x == x)%Q) -> script_nonneg C -> (0 <= ram)%Q ->
+  forall t s newp s' lg i p c,
+  sim_reach C a 0%Z (init_sim C np cpu ram) t s ->
+  sim_tick C a t s newp = Ok (s', lg) ->
+  cf_overcommit C = false ->
+  nth_error (e_pools (sm_exec s)) i = Some p -> In c (p_active p) ->
+  (forall su, In su (tl_susp lg) -> su_cid su <> c_id c) ->
+  c_completed (cstep C c) = false -> (c_mem (cstep C c) <= c_ram (cstep C c))%Q ->
+  exists p', nth_error (e_pools (sm_exec s')) i = Some p' /\ In (cstep C c) (p_active p') /\
+             forall r, In r (tl_results lg) -> r_cid r <> c_id c.
+Proof. exact AuditRepairFacts.sim_no_overcommit_within_alloc_never_killed. Qed.
+Print Assumptions C04_sim_no_overcommit_within_alloc_never_killed.
+
+(* [exact] the converse direction, about REAL containers: without RAM overcommit every failed result of a tick is
+   the result of a container [c] of one pool [p] of the state before the tick - running there and not named by a
+   suspension command for that pool, or created by this tick's assignments for that pool (id from the counter) -
+   whose state after its [ctick] of this tick is unfinished and ABOVE its allocation *)
+Theorem C04_sim_failure_is_own_limit_without_overcommit : forall C a np cpu ram,
   (forall x, (cf_rnd C x == x)%Q) -> script_nonneg C -> (0 <= ram)%Q ->
   forall t s newp s' lg,
   sim_reach C a 0%Z (init_sim C np cpu ram) t s ->
   sim_tick C a t s newp = Ok (s', lg) ->
   cf_overcommit C = false ->
   forall r, In r (tl_results lg) -> r_err r = true ->
-  exists c, r = result_of (r_pool r) (dead c) /\ c_completed c = false /\ (c_ram c < c_mem c)%Q.
-Proof. exact SimCorollaryFacts.C04_sim_kill_own_limit_or_overcommit. Qed.
-Print Assumptions C04_sim_kill_own_limit_without_overcommit.
+  exists i p next c,
+    nth_error (e_pools (sm_exec s)) i = Some p /\ (e_next (sm_exec s) <= next)%nat /\
+    (In c (p_active p) /\
+     ~ In (c_id c) (map su_cid (filter (fun x => (su_pool x =? Z.of_nat (p_id p))%Z) (tl_susp lg)))
+     \/ In c (new_containers next (filter (fun x => (a_pool x =? Z.of_nat (p_id p))%Z) (tl_asgs lg)))) /\
+    r = result_of (p_id p) (dead (cstep C c)) /\
+    c_completed (cstep C c) = false /\
+    (c_ram c < c_mem (cstep C c))%Q.
+Proof. exact AuditRepairFacts.sim_failure_is_own_limit_without_overcommit. Qed.
+Print Assumptions C04_sim_failure_is_own_limit_without_overcommit.
+
+(* non-vacuity of the two theorems, RAM overcommit OFF: the naive run of C05 Part 4 (SimTimelineExamples: one pool,
+   4 CPUs, 8 GB; container 1 = operators [1; 2] with 8 GB, created in tick 1; operator 1 needs 1 GB for three
+   ticks, operator 2 then asks for 1 GB and 100 GB). ALL hypotheses of C04_sim_no_overcommit_within_alloc_never_killed
+   hold in tick 3 for container 1 (1 GB of 8 GB after its [ctick]), and its conclusion *)
+Example C04_sim_never_killed_witness :
+  cf_overcommit SimTimelineExamples.xC = false /\
+  (forall x, (cf_rnd SimTimelineExamples.xC x == x)%Q) /\ script_nonneg SimTimelineExamples.xC /\ (0 <= 8)%Q /\
+  sim_reach SimTimelineExamples.xC ANaive 0%Z (init_sim SimTimelineExamples.xC 1 4%Z 8%Q) 3%Z SimTimelineExamples.x3 /\
+  sim_tick SimTimelineExamples.xC ANaive 3%Z SimTimelineExamples.x3 []
+    = Ok (RepairExamples.x4, RepairExamples.xlg3) /\
+  nth_error (e_pools (sm_exec SimTimelineExamples.x3)) 0 = Some SimTimelineExamples.xp3 /\
+  In SimTimelineExamples.xc1 (p_active SimTimelineExamples.xp3) /\
+  (forall su, In su (tl_susp RepairExamples.xlg3) -> su_cid su <> c_id SimTimelineExamples.xc1) /\
+  c_completed (cstep SimTimelineExamples.xC SimTimelineExamples.xc1) = false /\
+  (c_mem (cstep SimTimelineExamples.xC SimTimelineExamples.xc1)
+   <= c_ram (cstep SimTimelineExamples.xC SimTimelineExamples.xc1))%Q /\
+  (c_id SimTimelineExamples.xc1, Qred (c_mem (cstep SimTimelineExamples.xC SimTimelineExamples.xc1)),
+   Qred (c_ram (cstep SimTimelineExamples.xC SimTimelineExamples.xc1))) = (1%nat, 1%Q, 8%Q) /\
+  exists p', nth_error (e_pools (sm_exec RepairExamples.x4)) 0 = Some p' /\
+             In (cstep SimTimelineExamples.xC SimTimelineExamples.xc1) (p_active p') /\
+             forall r, In r (tl_results RepairExamples.xlg3) -> r_cid r <> c_id SimTimelineExamples.xc1.
+Proof.
+  destruct RepairExamples.never_killed_hyps as (A1 & A2 & A3 & A4 & A5 & A6 & A7 & A8 & A9).
+  split; [exact A1|]. split; [exact RepairExamples.xC_exact|]. split; [exact RepairExamples.xC_nonneg|].
+  split; [discriminate|]. split; [exact A2|]. split; [exact A3|]. split; [exact A4|]. split; [exact A5|].
+  split; [exact A6|]. split; [exact A7|]. split; [exact A8|]. split; [exact A9|].
+  exact (C04_sim_no_overcommit_within_alloc_never_killed SimTimelineExamples.xC ANaive 1%nat 4%Z 8%Q
+           RepairExamples.xC_exact RepairExamples.xC_nonneg ltac:(discriminate) 3%Z SimTimelineExamples.x3 []
+           RepairExamples.x4 RepairExamples.xlg3 0%nat SimTimelineExamples.xp3 SimTimelineExamples.xc1
+           A2 A3 A1 A4 A5 A6 A7 A8).
+Qed.
+
+(* ... and ALL hypotheses of C04_sim_failure_is_own_limit_without_overcommit hold in tick 6 of the same run for the
+   failed result of container 1 (its own-limit OOM: 100 GB against 8 GB); the theorem applies, and the container it
+   speaks about is the running container 1 of pool 0 *)
+Example C04_sim_failure_is_own_limit_witness :
+  cf_overcommit SimTimelineExamples.xC = false /\
+  sim_reach SimTimelineExamples.xC ANaive 0%Z (init_sim SimTimelineExamples.xC 1 4%Z 8%Q) 6%Z RepairExamples.x6 /\
+  sim_tick SimTimelineExamples.xC ANaive 6%Z RepairExamples.x6 [] = Ok (RepairExamples.x7, RepairExamples.xlg6) /\
+  In RepairExamples.xr6 (tl_results RepairExamples.xlg6) /\ r_err RepairExamples.xr6 = true /\
+  (r_cid RepairExamples.xr6, r_ops RepairExamples.xr6, Qred (r_ram RepairExamples.xr6), r_pool RepairExamples.xr6)
+    = (1%nat, [1%nat; 2%nat], 8%Q, 0%nat) /\
+  (exists i p next c,
+     nth_error (e_pools (sm_exec RepairExamples.x6)) i = Some p /\ (e_next (sm_exec RepairExamples.x6) <= next)%nat /\
+     (In c (p_active p) /\
+      ~ In (c_id c) (map su_cid (filter (fun x => (su_pool x =? Z.of_nat (p_id p))%Z) (tl_susp RepairExamples.xlg6)))
+      \/ In c (new_containers next
+                 (filter (fun x => (a_pool x =? Z.of_nat (p_id p))%Z) (tl_asgs RepairExamples.xlg6)))) /\
+     RepairExamples.xr6 = result_of (p_id p) (dead (cstep SimTimelineExamples.xC c)) /\
+     c_completed (cstep SimTimelineExamples.xC c) = false /\
+     (c_ram c < c_mem (cstep SimTimelineExamples.xC c))%Q) /\
+  nth_error (e_pools (sm_exec RepairExamples.x6)) 0 = Some RepairExamples.xp6 /\
+  In RepairExamples.xc6 (p_active RepairExamples.xp6) /\ tl_susp RepairExamples.xlg6 = [] /\
+  RepairExamples.xr6 = result_of (p_id RepairExamples.xp6) (dead (cstep SimTimelineExamples.xC RepairExamples.xc6)) /\
+  (c_id RepairExamples.xc6, Qred (c_ram RepairExamples.xc6), Qred (c_mem RepairExamples.xc6),
+   Qred (c_mem (cstep SimTimelineExamples.xC RepairExamples.xc6))) = (1%nat, 8%Q, 1%Q, 100%Q).
+Proof.
+  destruct RepairExamples.failure_hyps as (A1 & A2 & A3 & A4 & A5 & A6).
+  split; [exact A1|]. split; [exact A2|]. split; [exact A3|]. split; [exact A4|]. split; [exact A5|].
+  split; [exact A6|].
+  split; [|exact (proj2 RepairExamples.failure_applies)].
+  exact (C04_sim_failure_is_own_limit_without_overcommit SimTimelineExamples.xC ANaive 1%nat 4%Z 8%Q
+           RepairExamples.xC_exact RepairExamples.xC_nonneg ltac:(discriminate) 6%Z RepairExamples.x6 []
+           RepairExamples.x7 RepairExamples.xlg6 A2 A3 A1 RepairExamples.xr6 A4 A5).
+Qed.
 
 (* non-vacuity: overbook with RAM overcommit, two one-operator pipelines of 6 GB each on one pool of 10 GB:
    both containers get 10 GB in tick 0, both are within their allocation, container 0 is killed by the
